@@ -545,6 +545,10 @@ def init(table, reload=False):
     assert ('density' in table.properties and 'mass' in table.properties), \
         "Neutron table requires mass and density properties"
 
+    # Replacing the class-level attribute below would silently discard a pending
+    # delayed-load property; make sure the public table has been loaded first.
+    hasattr(table[0], 'neutron')
+
     # Defaults for missing neutron information
     missing = Neutron()
     Isotope.neutron = missing
